@@ -13,6 +13,7 @@ import (
 	"os"
 	"path/filepath"
 	"regexp"
+	"runtime/debug"
 	"sort"
 	"strings"
 	"sync"
@@ -251,7 +252,7 @@ func (r *Run) Inconclusive(why string) {
 	r.mu.Unlock()
 }
 
-func (r *Run) SetExhaustive(b bool) { r.mu.Lock(); r.exhaustive = &b; r.mu.Unlock() }
+func (r *Run) SetExhaustive(b bool)  { r.mu.Lock(); r.exhaustive = &b; r.mu.Unlock() }
 func (r *Run) Extra(k string, v any) { r.mu.Lock(); r.extra[k] = v; r.mu.Unlock() }
 
 func (r *Run) Counter(key string) int64 {
@@ -413,7 +414,7 @@ func (r *Run) Finish() int {
 		"wall_s":      wall,
 		"violations":  len(r.violations),
 	}
-	if r.ReplayIx < 0 {
+	if r.ReplayIx < 0 && os.Getenv("VERIF_NO_EVIDENCE") == "" {
 		_ = os.MkdirAll(filepath.Join(Root, "evidence"), 0o755)
 		b, _ := json.MarshalIndent(ev, "", " ")
 		_ = os.WriteFile(filepath.Join(Root, "evidence", r.Prop+".json"), append(b, '\n'), 0o644)
@@ -516,6 +517,25 @@ func (j *Journal) InFlight() []string {
 	return out
 }
 
+// safeCase runs one case; a panic that escapes the case function is a defect of
+// the harness itself (calls into the code under test are recovered where they
+// are made) and makes the run inconclusive, never a violation.
+func (r *Run) safeCase(wl Workload, idx int) {
+	defer func() {
+		if p := recover(); p != nil {
+			r.Inconclusive(fmt.Sprintf("harness panic in workload %s case %d: %v\n%s", wl.Name, idx, p, clipStack(debug.Stack())))
+		}
+	}()
+	wl.Fn(r, idx, CaseRNG(r.Seed, wl.Name, idx))
+}
+
+func clipStack(b []byte) string {
+	if len(b) > 1500 {
+		b = b[:1500]
+	}
+	return string(b)
+}
+
 // Execute runs the workloads (or only the replayed case) with a worker pool.
 func (r *Run) Execute(j *Journal, wls []Workload) {
 	for _, wl := range wls {
@@ -524,7 +544,7 @@ func (r *Run) Execute(j *Journal, wls []Workload) {
 				continue
 			}
 			j.Begin(0, wl.Name, r.ReplayIx)
-			wl.Fn(r, r.ReplayIx, CaseRNG(r.Seed, wl.Name, r.ReplayIx))
+			r.safeCase(wl, r.ReplayIx)
 			j.End(0)
 			continue
 		}
@@ -546,7 +566,7 @@ func (r *Run) Execute(j *Journal, wls []Workload) {
 				defer wg.Done()
 				for idx := range next {
 					j.Begin(w, wl.Name, idx)
-					wl.Fn(r, idx, CaseRNG(r.Seed, wl.Name, idx))
+					r.safeCase(wl, idx)
 					j.End(w)
 				}
 			}(w)
